@@ -501,12 +501,44 @@ SAFE_ATTRS = {
 ARITY_FIXED = {"partition": 3, "rpartition": 3}
 
 
-def handler_reraises(h: ast.ExceptHandler) -> bool:
-    for st in h.body:
-        for x in q.walk_local(st):
-            if isinstance(x, ast.Raise) and x.exc is None:
+def handler_reraises(h: ast.ExceptHandler, exc: Optional[str] = None) -> bool:
+    """The handler lets the exception (of class ``exc``) out again with a bare ``raise``.  The idiom
+    ``except Exception as e: if isinstance(e, Q): <handle> [else:] raise`` re-raises only what is not a Q."""
+
+    def isinst(test):
+        pol = True
+        while isinstance(test, ast.UnaryOp) and isinstance(test.op, ast.Not):
+            test, pol = test.operand, not pol
+        if isinstance(test, ast.Call) and isinstance(test.func, ast.Name) and test.func.id == "isinstance" and len(test.args) == 2 and isinstance(test.args[0], ast.Name) and test.args[0].id == h.name:
+            ts = test.args[1].elts if isinstance(test.args[1], ast.Tuple) else [test.args[1]]
+            return [q.dotted(t) or q.unparse(t) for t in ts], pol
+        return None
+
+    def leaves(stmts):
+        return bool(stmts) and isinstance(stmts[-1], (ast.Return, ast.Raise, ast.Continue, ast.Break))
+
+    def rec(stmts) -> bool:
+        for st in stmts:
+            if isinstance(st, ast.Raise) and st.exc is None:
                 return True
-    return False
+            if isinstance(st, ast.Return):
+                return False
+            if isinstance(st, ast.If) and exc is not None and h.name:
+                it = isinst(st.test)
+                if it is not None:
+                    names, pol = it
+                    taken = st.body if q.exc_is_caught(exc, names) == pol else st.orelse
+                    if rec(taken):
+                        return True
+                    if leaves(taken):
+                        return False
+                    continue
+            for x in q.walk_local(st):
+                if isinstance(x, ast.Raise) and x.exc is None:
+                    return True
+        return False
+
+    return rec(h.body)
 
 
 def local_handler(pm, node: ast.AST, exc: str) -> Optional[ast.ExceptHandler]:
@@ -520,7 +552,7 @@ def local_handler(pm, node: ast.AST, exc: str) -> Optional[ast.ExceptHandler]:
             stop = False
             for h in a.handlers:
                 if q.exc_is_caught(exc, q.handler_names(h)):
-                    if handler_reraises(h):
+                    if handler_reraises(h, exc):
                         stop = True
                         break  # propagates outward from this try
                     return h
